@@ -1,5 +1,7 @@
 import SodiumModel.Driver.Common
 import SodiumModel.Model.Fault
+import SodiumModel.Model.AllocLang
+import SodiumModel.Model.AllocScenarios
 namespace Sodium.Driver.C20
 open Sodium Sodium.Model.Fault Sodium.Driver
 
@@ -11,20 +13,44 @@ def evStr : Ev → String
 def oracle (mode : String) (i : Nat) : Nat → Bool :=
   if mode = "only" then fun j => j != i else if mode = "from" then fun j => j < i else fun _ => true
 
-def prog (api : String) (ok : Nat → Bool) : Option (M Int × Bool) :=   -- (program, prints str=)
+/-- every API name of the harness is run through the allocation skeleton GENERATED from the C source
+    (`Generated/AllocProgs.lean`), under the valuation of the named inputs that describes the harness call -/
+def genProg (api : String) : Option (Sodium.Model.AllocLang.Prog × List String × Bool) :=   -- (program, true inputs, prints str=)
+  let G := Generated.AllocProgs.entries
+  let find (n : String) := (G.find? (·.name == n)).map (·.prog)
+  let S := Sodium.Model.AllocScenarios.raw
   match api with
-  | "argon2id_raw" | "argon2i_raw" | "pwhash_raw" | "argon2id_raw65" | "argon2i_raw200" | "pwhash_raw16" => some (pwhash ok, false)
-  | "argon2id_str" | "argon2i_str" | "pwhash_str" => some (pwhash ok, true)
-  | "argon2id_verify_ok" | "argon2i_verify_ok" | "pwhash_verify_ok" => some (argon2Verify ok true true, false)
-  | "argon2id_verify_wrong" | "argon2i_verify_wrong" | "pwhash_verify_wrong" => some (argon2Verify ok true false, false)
-  | "argon2id_needs_rehash" | "argon2i_needs_rehash" | "pwhash_needs_rehash" => some (needsRehash ok 0, false)
-  | "argon2id_needs_rehash_diff" => some (needsRehash ok 1, false)
-  | "scrypt_raw" | "scrypt_ll" => some (scrypt ok true, false)
-  | "scrypt_str" => some (scrypt ok true, true)
-  | "scrypt_verify_ok" => some (scrypt ok true, false)
-  | "scrypt_verify_wrong" => some (scrypt ok false, false)
-  | "sodium_malloc" | "sodium_allocarray" => some (sodiumMalloc ok, false)
+  | "argon2id_raw" | "argon2id_raw65" => (find "crypto_pwhash_argon2id").map (·, S, false)
+  | "argon2i_raw" | "argon2i_raw200" => (find "crypto_pwhash_argon2i").map (·, S, false)
+  | "pwhash_raw" | "pwhash_raw16" => (find "crypto_pwhash").map (·, S, false)
+  | "argon2id_str" => (find "crypto_pwhash_argon2id_str").map (·, Sodium.Model.AllocScenarios.str, true)
+  | "argon2i_str" => (find "crypto_pwhash_argon2i_str").map (·, Sodium.Model.AllocScenarios.str, true)
+  | "pwhash_str" => (find "crypto_pwhash_str").map (·, Sodium.Model.AllocScenarios.str, true)
+  | "argon2id_verify_ok" => (find "crypto_pwhash_argon2id_str_verify").map (·, Sodium.Model.AllocScenarios.verify true true, false)
+  | "argon2id_verify_wrong" => (find "crypto_pwhash_argon2id_str_verify").map (·, Sodium.Model.AllocScenarios.verify true false, false)
+  | "argon2i_verify_ok" => (find "crypto_pwhash_argon2i_str_verify").map (·, Sodium.Model.AllocScenarios.verify true true, false)
+  | "argon2i_verify_wrong" => (find "crypto_pwhash_argon2i_str_verify").map (·, Sodium.Model.AllocScenarios.verify true false, false)
+  | "pwhash_verify_ok" => (find "crypto_pwhash_str_verify").map (·, Sodium.Model.AllocScenarios.verify true true, false)
+  | "pwhash_verify_wrong" => (find "crypto_pwhash_str_verify").map (·, Sodium.Model.AllocScenarios.verify true false, false)
+  | "argon2id_needs_rehash" => (find "crypto_pwhash_argon2id_str_needs_rehash").map (·, Sodium.Model.AllocScenarios.rehash 0, false)
+  | "argon2id_needs_rehash_diff" => (find "crypto_pwhash_argon2id_str_needs_rehash").map (·, Sodium.Model.AllocScenarios.rehash 1, false)
+  | "argon2i_needs_rehash" => (find "crypto_pwhash_argon2i_str_needs_rehash").map (·, Sodium.Model.AllocScenarios.rehash 0, false)
+  | "pwhash_needs_rehash" => (find "crypto_pwhash_str_needs_rehash").map (·, Sodium.Model.AllocScenarios.rehash 0, false)
+  | "scrypt_raw" => (find "crypto_pwhash_scryptsalsa208sha256").map (·, Sodium.Model.AllocScenarios.scrypt true, false)
+  | "scrypt_ll" => (find "crypto_pwhash_scryptsalsa208sha256_ll").map (·, Sodium.Model.AllocScenarios.scrypt true, false)
+  | "scrypt_str" => (find "crypto_pwhash_scryptsalsa208sha256_str").map (·, Sodium.Model.AllocScenarios.scrypt true, true)
+  | "scrypt_verify_ok" => (find "crypto_pwhash_scryptsalsa208sha256_str_verify").map (·, Sodium.Model.AllocScenarios.scrypt true, false)
+  | "scrypt_verify_wrong" => (find "crypto_pwhash_scryptsalsa208sha256_str_verify").map (·, Sodium.Model.AllocScenarios.scrypt false, false)
+  | "sodium_malloc" => (find "sodium_malloc").map (·, Sodium.Model.AllocScenarios.guarded, false)
+  | "sodium_allocarray" => (find "sodium_allocarray").map (·, Sodium.Model.AllocScenarios.guarded, false)
   | _ => none
+
+/-- the run of the generated skeleton; for the two pointer-returning entry points the harness prints 0 / -1 -/
+def genRun (api : String) (ok : Nat → Bool) : Option (Run × Bool) := do
+  let (p, trues, isStr) ← genProg api
+  let r := Sodium.Model.AllocLang.runWith ok (Sodium.Model.AllocScenarios.ιOf trues) p
+  let rc := if api = "sodium_malloc" ∨ api = "sodium_allocarray" then (if r.rc = 0 then -1 else 0) else r.rc
+  some (⟨rc, r.evs⟩, isStr)
 
 def handle (op : String) (args : List String) : Option String :=
   match op, args with
@@ -32,8 +58,7 @@ def handle (op : String) (args : List String) : Option String :=
     -- "<api>.m<bytes>": the same call with another memory limit; the allocation sequence does not depend on it
     let api := (api0.splitOn ".m").headD api0
     let i := (rest.head?.bind String.toNat?).getD 0
-    let (p, isStr) ← prog api (oracle mode i)
-    let r := run p
+    let (r, isStr) ← genRun api (oracle mode i)
     let evs := String.join (r.evs.map evStr)
     let lv := if api = "sodium_malloc" ∨ api = "sodium_allocarray" then 0 else (live r.evs).length
     let extra := if isStr then (if r.rc = 0 then " str=produced" else " str=none") else ""
